@@ -33,6 +33,7 @@ class Binder:
     def __init__(self, kind, node, var=None, lo=None, hi=None, src=None, pos=None, elem=None, start=0):
         self.kind, self.node, self.var, self.lo, self.hi = kind, node, var, lo, hi
         self.src, self.pos, self.elem, self.start = src, pos, elem, start
+        self.value_var = None
 
     def names(self):
         return [x for x in (self.var, self.pos, self.elem) if x]
@@ -123,6 +124,15 @@ def binder_of(fn, target, it, use, pm, node):
         return Binder('enum', node, src=it.args[0], pos=target.elts[0].id, elem=target.elts[1].id, start=start)
     if isinstance(target, ast.Name):
         return Binder('iter', node, src=it, elem=target.id)
+    # for k, v in D.items()  (possibly sorted()/list()): k ranges over the keys of D
+    inner = it
+    while isinstance(inner, ast.Call) and isinstance(inner.func, ast.Name) and inner.func.id in ('sorted', 'list', 'tuple') and len(inner.args) == 1:
+        inner = inner.args[0]
+    if isinstance(target, ast.Tuple) and len(target.elts) == 2 and all(isinstance(x, ast.Name) for x in target.elts) \
+            and isinstance(inner, ast.Call) and isinstance(inner.func, ast.Attribute) and inner.func.attr == 'items' and not inner.args:
+        b = Binder('iter', node, src=inner.func.value, elem=target.elts[0].id)
+        b.value_var = target.elts[1].id
+        return b
     return None
 
 
